@@ -88,3 +88,14 @@ func zzIter() int { panic("spec only") }
 //@ func steady
 //@ requires 0 <= n && n <= 100
 //@ ensures [ok] result0 == n && result1 == 3 + 2*n
+
+//@ func carve
+//@ ensures [nn] result != nil
+
+//@ func carveOK
+//@ requires 0 <= i && i < len(cs)
+//@ ensures [nn] result != nil
+
+//@ func carveUse
+//@ requires 0 <= i && i < len(cs)
+//@ ensures [any] result == result
